@@ -96,7 +96,7 @@ def analyzer_case(draw, tier):
     c = {"N": N, "fs": draw(st.sampled_from([1.0, 2.0, 1000.0, 0.01])), "win": draw(st.sampled_from(gens.WIN_NAMES)),
          "psll": draw(st.one_of(st.sampled_from([200, 100, 60, 30]), st.floats(30, 250))),
          "sched": draw(st.sampled_from(sched.NAMES + ["<default>"])), "defaults": draw(st.booleans()),
-         "verbose": draw(st.booleans())}
+         "verbose": draw(st.booleans()), "sched_as": draw(st.sampled_from(["name", "function"]))}
     if not c["defaults"]:
         c.update(bmin=draw(st.sampled_from([1.0, 1.5, 2.0])), Lmin=draw(st.sampled_from([1, 2, max(1, N // 3)])),
                  Jdes=draw(st.integers(1, 300)), Kdes=draw(st.integers(1, 200)))
@@ -111,7 +111,7 @@ def oracle_analyzer(c):
     N = int(c["N"])
     kw = dict(win=gens.resolve_window(c["win"])[0], psll=c["psll"], verbose=bool(c.get("verbose", False)))
     if c["sched"] != "<default>":
-        kw["scheduler"] = c["sched"]
+        kw["scheduler"] = sched.sched_func(c["sched"]) if c.get("sched_as") == "function" else c["sched"]
     if not c["defaults"]:
         kw.update(bmin=c["bmin"], Lmin=c["Lmin"], Jdes=c["Jdes"], Kdes=c["Kdes"])
     an = SpectrumAnalyzer(np.zeros(N), c["fs"], **kw)
